@@ -87,13 +87,13 @@ type vgBucket struct {
 }
 
 type vgVpr struct {
-	Total   string     `json:"total"`
-	Buckets []vgBucket `json:"b"`
-	Powers  []vgVP     `json:"p"`
-	Changes []vgVP     `json:"ch"`
-	Tree    []vgVP     `json:"tree"`
-	Lowest  string     `json:"low"`
-	TreeCorrupt string `json:"treecorrupt,omitempty"`
+	Total       string     `json:"total"`
+	Buckets     []vgBucket `json:"b"`
+	Powers      []vgVP     `json:"p"`
+	Changes     []vgVP     `json:"ch"`
+	Tree        []vgVP     `json:"tree"`
+	Lowest      string     `json:"low"`
+	TreeCorrupt string     `json:"treecorrupt,omitempty"`
 }
 
 type vgResult struct {
@@ -102,20 +102,20 @@ type vgResult struct {
 }
 
 type vgDump struct {
-	Err       string     `json:"err"`
-	Panic     string     `json:"panic,omitempty"`
-	Accs      []vgAcc    `json:"accs"`
-	SysBal    string     `json:"sysbal"`
-	Total     string     `json:"total"`
-	Results   []vgResult `json:"res"`
-	ParamCur  []string   `json:"pcur"`
-	ParamNext []string   `json:"pnext"`
-	ParamDB   []string   `json:"pdb"`
-	Mem       *vgVpr     `json:"mem"`
-	Reload    *vgVpr     `json:"reload"`
-	Equals    bool       `json:"equals"`
-	EqualsPanic string   `json:"equalspanic,omitempty"`
-	Event     string     `json:"ev"`
+	Err         string     `json:"err"`
+	Panic       string     `json:"panic,omitempty"`
+	Accs        []vgAcc    `json:"accs"`
+	SysBal      string     `json:"sysbal"`
+	Total       string     `json:"total"`
+	Results     []vgResult `json:"res"`
+	ParamCur    []string   `json:"pcur"`
+	ParamNext   []string   `json:"pnext"`
+	ParamDB     []string   `json:"pdb"`
+	Mem         *vgVpr     `json:"mem"`
+	Reload      *vgVpr     `json:"reload"`
+	Equals      bool       `json:"equals"`
+	EqualsPanic string     `json:"equalspanic,omitempty"`
+	Event       string     `json:"ev"`
 }
 
 func vgErrClass(err error) string {
@@ -377,8 +377,15 @@ func vgRunScenario(sc *vgScenario) (dumps []*vgDump, fatal string) {
 			fatal = fmt.Sprint("engine panic: ", r, string(debug.Stack()))
 		}
 	}()
+	// aergo-lib memorydb loads <dir>/database on open and writes it on Close: every scenario
+	// gets its own scratch directory
+	dir, derr := os.MkdirTemp(os.Getenv("VERIF_TMP"), "gov-node-")
+	if derr != nil {
+		return nil, derr.Error()
+	}
+	defer os.RemoveAll(dir)
 	c := state.NewChainStateDB()
-	c.Init(string(db.MemoryImpl), "", nil, true, nil)
+	c.Init(string(db.MemoryImpl), dir, nil, true, nil)
 	defer c.Close()
 	genesis := types.GetTestGenesis()
 	if err := c.SetGenesis(genesis, nil); err != nil {
